@@ -49,6 +49,8 @@ def validate_sharded(module, cfg, recs, wd, shards=4, tag="shard", sum_keys=("co
                     v = dict(v)
                     v["line"] = groups[k][v["line"] - 1] + 1
                     merged["viol"].append(v)
+            elif key == "badlines":
+                merged.setdefault("badlines", []).extend(groups[k][x - 1] + 1 for x in val)
             elif isinstance(val, int) and not isinstance(val, bool):
                 merged[key] = merged.get(key, 0) + val
             else:
@@ -123,7 +125,8 @@ def selftest_traces(module, cfg, wd, ref, muts):
 
 def mark_bad(recs, out):
     """Mark the events the main validation already rejected (self-test corruptions avoid them).
-    Returns False when the violation list was capped, i.e. not every rejected event is known."""
-    for v in out["viol"]:
-        recs[v["line"] - 1]["_bad"] = True
-    return out["nviol"] <= len(out["viol"])
+    Returns False when the list of rejected lines was capped, i.e. not every rejected event is known."""
+    bad = out.get("badlines", [])
+    for x in bad:
+        recs[x - 1]["_bad"] = True
+    return out["nviol"] <= len(bad)
